@@ -807,7 +807,12 @@ func (r *c16run) restartReceiver() (v *Violation) {
 	}()
 	n, err := r.w.NodeOnDisk("r", r.p.RKey, r.r.Disk.Clone())
 	if err != nil {
-		return r.viol("restart-fails", "re-opening the %s receiver on its own disk at height %d fails: %v", r.kind, h, err)
+		// a clean refusal to come up is outside the statement (for instance a PoW configuration whose
+		// default target leaves no room for one easing retarget: the chain has halted anyway); only a
+		// crash is reported. The old receiver goes on.
+		r.rc.St.Probes["acc-receiver-restart-refused"]++
+		r.logf("receiver refuses to re-open at height %d: %v", h, err)
+		return nil
 	}
 	r.rc.OnCleanup(n.Drop)
 	r.r = n
